@@ -332,6 +332,8 @@ class Engine(CoreMixin, ExprMixin, CallMixin, StmtMixin, BuiltinMixin):
             parts.append(smt.spec_module("mod_outcome"))
             body = [b for b in body if not b.startswith("(declare-fun attr_target ") and not b.startswith("(declare-fun attr_result ") and not b.startswith("(declare-fun attr_error ")]
             btext = "\n".join(body)
+        if "MEM-EX" in (getattr(contract, "lemmas", []) or []):
+            parts.append(smt.spec_module("mod_mem"))
         if "DICT-ITEM" in (getattr(contract, "lemmas", []) or []):
             parts.append(smt.spec_module("mod_dict"))
         if "is_json" in btext:
@@ -356,9 +358,20 @@ class Engine(CoreMixin, ExprMixin, CallMixin, StmtMixin, BuiltinMixin):
         if not live:
             return facts
         keep = [False] * len(facts)
+        # facts about an input object itself (its class / kind: only the bare input symbol occurs) stay relevant to
+        # every goal about one of its attributes
+        bases = set(_r.findall(r"(?<![\w.])in_[A-Za-z0-9_]+", goal))
+        for i, s in enumerate(syms):
+            if s and s <= bases:
+                keep[i] = True
         changed = True
         while changed:
             changed = False
+            bases_now = {m.split("@", 1)[1] for m in live if m.startswith("AT_")} | {m for m in live if m.startswith("in_")}
+            for i, s in enumerate(syms):
+                if not keep[i] and s and s <= bases_now:
+                    keep[i] = True
+                    changed = True
             for i, s in enumerate(syms):
                 if not keep[i] and (not s or s & live):
                     keep[i] = True
